@@ -30,7 +30,15 @@ RULE = (
     "location, or when the slice is open-ended and keeps >= 1 location; a feature-index case when the "
     "feature has >= 2 locations or is on the reverse strand; a revcomp/copy case when the annotation "
     "has a location with a defect or start != 1. Cases are generated from canonical (sorted, "
-    "de-duplicated) descriptions, so no case is executed twice."
+    "de-duplicated) descriptions, so no case is executed twice. Dimension families (dim_*): the same checks "
+    "on complete small spaces along one more dimension each - sequence object flavour (alphabet sizes 256/257/300 "
+    "= uint8/uint16 code, ProteinSequence, forced ambiguous alphabet, negative-stride and strided code views), "
+    "numpy integer scalars (int64/int32/int8/uint8/uint64) as slice bounds, integer index, sequence_start and "
+    "positions, object reuse (every slice of every slice, two successive feature assignments, slices before and "
+    "after every in-place edit for all 24 orders of 4 features, calls after refused calls), argument aliasing and "
+    "order independence (every container type and every order of locations / qualifiers / features), empty "
+    "annotation / empty sequence / no location, many items (positions 8..12 and 98..102, 10 and 101 features, "
+    "9..12 locations in one feature), positions around +-sys.maxsize (counted only)."
 )
 ASSUMPTIONS = [
     "EITHER (exception or exact model value): empty slices (a == b, or a > b on a bare Annotation)",
@@ -47,6 +55,10 @@ ASSUMPTIONS = [
     "restore the original",
     "whether a sliced AnnotatedSequence shares memory with its parent is unspecified and not checked",
     "complement table of the model: IUPAC (A-T C-G R-Y M-K B-V D-H, W S N self-complementary)",
+    "counted as unspecified, never reported: what an AnnotatedSequence shares with its constructor arguments, "
+    "with its slices, with x[feature] and with its reverse complement; Feature assignment with a value of the "
+    "wrong length (partial writes); unsigned numpy integers as a slice stop of 0 on a bare Annotation and as "
+    "positions (numpy's unsigned arithmetic wraps); positions of magnitude >= sys.maxsize",
 ]
 EXHAUSTIVE = True
 SHARD_TIMEOUT = {"quick": 600, "thorough": 2400}
@@ -100,6 +112,13 @@ def bounds(tier):
         "defect_palette": "NONE, MISS_LEFT, BEYOND_RIGHT and one of 8 listed others (seed); revcomp: all 6 "
                           "single flags + 3 combinations",
         "overhang": "2 positions on either side (aseq3/aseq3f: 1)",
+        "dimension_families": {"dim_types": "7 flavours, n=%d, starts 1 and 5" % (4 if q else 5),
+                               "dim_ints": "5 numpy integer types, n=3, starts 1 and 5",
+                               "dim_reuse": "n=4, starts 1 and 5", "dim_alias": "n=4, 1..3 locations",
+                               "dim_empty": "n=0..3, no feature / no base",
+                               "dim_many": "starts 8 and 98 (n=5); %s features; 9..12 locations (n=12)"
+                                           % ("10, 101" if q else "9, 10, 11, 99, 100, 101"),
+                               "dim_huge": "7 locations x 7 x 7 bounds around +-sys.maxsize, counted only"},
     }
 
 
@@ -1713,7 +1732,8 @@ def run_dim_reuse(shard, ctx, p):
     first = [sl for sl in all_sl if sl[0] is None or sl[0] >= start]
     for pr in pairs(inner, plain):
         feats = [["a", pr]]
-        if pr[0][3] == 0 and pr[0][0] == start:  # a complete sub-space: first location starts at the sequence start
+        # a complete sub-space: first location starts at the sequence start, both locations on one strand
+        if pr[0][3] == 0 and pr[0][0] == start and pr[0][2] == pr[1][2]:
             for sl1 in first:
                 A0 = sl1[0] if sl1[0] is not None else start
                 B0 = sl1[1] if sl1[1] is not None else start + n
